@@ -4,6 +4,7 @@ import re
 import absint
 import align
 import survive
+import loopstate
 import c19
 import ir
 from report import Finding
@@ -199,4 +200,47 @@ def length_store_survives(chk, rule, lib, mods):
                     chk.finding(Finding(rule, o.name, F.name, "length-store-deleted:%s" % srcf.split("/")[-1],
                                         "the source stores the message bit length into the %s here, but the object built with the real flags has no instruction on this line that writes memory (%d instruction(s) on the line): the optimiser deleted the store (a uint64_t written into a byte buffer that is read back as 32-bit words is undefined behaviour), so the padding carries a zero length and the hash is not the standard one" % (kind, non),
                                         loc="%s:%s" % (srcf, S.line)))
+    return n
+
+
+def bit_length_width(chk, rule, mods):
+    """The byte-to-bit conversion feeding every length-field store is a 64-bit operation (a 32-bit <<3 wraps at
+    2^29 bytes)."""
+    n = 0
+    for src, M in sorted(mods.items()):
+        for F in M.defined():
+            for (S, lines, kind) in survive.length_sinks(M, F):
+                n += 1
+                bad = survive.narrow_bit_length(F, S)
+                chk.obligation(rule, bad is None, key=(src, F.name, S.line, "width"), sample={"unit": src, "function": F.name, "line": S.line})
+                if bad is not None:
+                    chk.finding(Finding(rule, src, F.name, "bit-length-width", "the bit length stored into the padding is formed by a %s-wide `%s` (%s): it wraps for streams of 2^29 bytes or more, although streams up to 2^32-1 bytes are in the property's domain" % (bad.ty, bad.op, ir.expr_str(F, {"k": "i", "id": bad.id})[:80]), loc=bad.loc()))
+    return n
+
+
+def loop_state_rule(chk, rule, lib, name_re, floor_loops=1):
+    """No state location is re-loaded in every iteration of a block loop, left unwritten inside the loop and written
+    back from a loop-computed register only after it (lib/loopstate.py)."""
+    n = nl = 0
+    for key, name in lib.entry_list:
+        if not re.match(name_re, name) or name.endswith(("_mbinit", "_dispatch_init")):
+            continue
+        o = lib.by_name[key[0]]
+        if o.kind != "asm":
+            continue
+        f = lib.func(key)
+        p1 = absint.Interp(lib, lambda t, c=None: c19.summary_of(lib, t, c)).run(f)
+        loops = loopstate.natural_loops(f)
+        if not loops:
+            continue
+        n += 1
+        nl += len(loops)
+        lost = loopstate.lost_iterations(f, p1)
+        chk.obligation(rule, not lost, key=(name, "loop-state"), sample={"function": name, "loops": len(loops)})
+        if lost:
+            (k, ld, st_, h) = lost[0]
+            chk.finding(Finding(rule, o.name, name, "loop-state:%s%+d" % (k[0].lower(), k[1]),
+                                "`%s` re-loads the state at [%s%+d] in every iteration of the loop at %s, the loop never writes it back, and `%s` (%s) stores the loop's register there afterwards: every iteration but the last is lost, so the result depends on how many blocks one call passes" % (ld.text.strip(), k[0].lower(), k[1], o.line_of(key[1], h), st_.text.strip(), o.line_of(key[1], st_.addr)),
+                                loc=o.line_of(key[1], ld.addr)))
+    chk.extra.setdefault("loop_state", {})[rule] = {"functions_with_loops": n, "loops": nl}
     return n
